@@ -56,6 +56,14 @@ META = {
 
 FUEL = "400"
 BLAMEY = ("ERR Blame+", "ERR Blame-", "ERR TailAccess")
+# who must be blamed, by construction of the case: the function under the contract (positive blame; a
+# touched tail is reported as TailAccess) or, for ctx-* and an excluded field in the argument, its caller
+EXPECT = {
+    "inspect": ("ERR Blame+",), "fabricate": ("ERR Blame+",), "tail-add": ("ERR Blame+",),
+    "tail-fabricate": ("ERR Blame+",), "tail-drop": ("ERR Blame+",),
+    "tail-inspect": ("ERR TailAccess", "ERR Blame+"),
+    "ctx-inspect": ("ERR Blame-",), "ctx-fabricate": ("ERR Blame-",), "tail-excluded": ("ERR Blame-",),
+}
 
 
 def esc(s):
@@ -106,6 +114,8 @@ def judge(ck, c):
     ck.case(key=c["sx"], nontrivial=("forall" in c["sx"]))
     ck.hist("class", klass)
     ck.hist("primitive", prim)
+    for ft in c.get("feat", ["corpus"]):
+        ck.hist("signature_feature", ft)
     ck.hist("impl_outcome_contracted", c["i_c"].split(" ")[1] if c["i_c"].startswith("ERR") else "OK")
     ck.hist("impl_outcome_bare", c["i_b"].split(" ")[1] if c["i_b"].startswith("ERR") else "OK")
     replay = {"case": c["sx"], "class": klass, "primitive": prim, "nickel": c["src"], "nickel_bare": c["bare_src"],
@@ -114,6 +124,10 @@ def judge(ck, c):
     violated = False
     if c["src"].startswith("PARSE-ERROR") or "<internal>" in c["src"]:
         ck.obligation("generator:bad-case", "internal", False, c["sx"][:400])
+        return
+    if c["i_c"] in ("ERR Parse", "ERR Typecheck") or c["i_b"] in ("ERR Parse", "ERR Typecheck"):
+        # the printed program is not a well-formed Nickel program: a defect of the generator/printer
+        ck.obligation("generator:ill-formed-program", "internal", False, c["src"][:600])
         return
     # ---- direct oracle on the implementation (no model involved)
     if klass.startswith("parametric"):
@@ -125,12 +139,14 @@ def judge(ck, c):
                          % (c["i_c"], c["i_b"]),
                          dict(replay, expected="contracted == bare"))
     else:
-        if c["i_c"] not in BLAMEY:
+        want = EXPECT.get(klass, BLAMEY)
+        if c["i_c"] not in want:
             violated = True
-            ck.violation(known_key(c) or "missed-blame:%s:%s" % (klass, prim),
-                         "implementation of class %s (%s) is not blamed under the polymorphic contract: %s"
-                         % (klass, prim, c["i_c"]),
-                         dict(replay, expected="Blame or TailAccess"))
+            what = "wrong-party-blamed" if c["i_c"] in BLAMEY else "missed-blame"
+            ck.violation(known_key(c) or "%s:%s:%s" % (what, klass, prim),
+                         "implementation of class %s (%s) under the polymorphic contract: expected %s, observed %s"
+                         % (klass, prim, " or ".join(want), c["i_c"]),
+                         dict(replay, expected=" or ".join(want)))
         elif klass == "tail-inspect" and c["i_c"] != "ERR TailAccess":
             ck.count("tail_inspect_blamed_not_tailaccess")
     # ---- correspondence model vs implementation
